@@ -579,6 +579,12 @@ func corePkg(t types.Type) string {
 // pkgMatches: does a component's package match one of the `preserves` entries (path suffix match)?
 func pkgMatches(pkg string, pats []string) bool {
 	if pkg == "" {
+		// components of no package: cells, elements and maps of basic types ("basic-data")
+		for _, p := range pats {
+			if p == "basic-data" {
+				return true
+			}
+		}
 		return false
 	}
 	for _, p := range pats {
